@@ -117,6 +117,8 @@ def c02(res: CheckResult) -> None:
               list(F.fam_badkw(res.tier, rng)), ic)
     call_unit(res, "sync / coroutine-function / coroutine-returning / awaitable-returning conditions and captures on "
                    "sync and async callables", list(F.fam_async_placements(res.tier, rng)), ic)
+    call_unit(res, "violated postconditions whose error factory reads OLD although no condition names it",
+              [p for p in F.fam_err(res.tier, rng) if p["tag"] == "err-post-noold"], ic)
     call_unit(res, "async public methods (with postconditions) awaiting public methods of the same / another object",
               list(F.fam_reent_async(res.tier, rng)), ic)
     def_unit(res, "inherited postconditions incl. overrides under foreign decorators: calls judged against the "
